@@ -713,6 +713,20 @@ impl<T: Eq + Hash + Clone> AutomatonBuilder<T> {
     ///   transitions do not cover the full alphabet.
     ///
     pub fn build(&mut self) -> Result<Automaton, Error> {
+        // Check the specification as the caller gave it. This must happen before
+        // cleanup, which may promote a successor to default and drops the
+        // transitions that lead to the default successor: checking afterwards
+        // would accept incomplete states and overlapping labels.
+        for s in self.states.iter() {
+            let p = s.make_partition()?;
+            if s.default_successor.is_some() && p.empty_complement() {
+                return Err(Error::EmptyComplementaryClass);
+            }
+            if s.default_successor.is_none() && !p.empty_complement() {
+                return Err(Error::MissingDefaultSuccessor);
+            }
+        }
+
         let n = self.size;
         let mut num_final_states = 0;
         let mut state_array = Vec::with_capacity(n);
